@@ -128,7 +128,7 @@ pub fn alphabet() -> TreeAlphabet {
 
 pub fn run(tier: &str) -> Result<Report, String> {
     let mut rep = Report::new("C06", tier, "exploration");
-    let s_max = if tier == "quick" { 4 } else { 5 };
+    let s_max = 5; // both tiers (16 million trees); the tiers differ in the parser-returned trees, the preprocessing bound and the constructor grid
     let mut g = TreeGen::new(alphabet());
     let mut per_size = vec![];
     for size in 1..=s_max {
